@@ -33,7 +33,30 @@ func localForward(v ssa.Value) ssa.Value {
 			if fa2, ok := x.Addr.(*ssa.FieldAddr); ok && fa2.X == fa.X && fa2.Field == fa.Field {
 				return x.Val
 			}
-		case *ssa.Call, *ssa.Defer, *ssa.Go:
+		case *ssa.Call:
+			// a call that is not handed the object (nor anything reached from it) cannot store into its field: a method of a
+			// parsed node asked for its position, a reflect accessor, a conversion helper over plain values
+			touches := false
+			for _, a := range x.Call.Args {
+				if a == fa.X || rootOf(a) == fa.X {
+					touches = true
+				}
+			}
+			if x.Call.IsInvoke() && (x.Call.Value == fa.X || rootOf(x.Call.Value) == fa.X) {
+				touches = true
+			}
+			if _, isClosure := x.Call.Value.(*ssa.MakeClosure); isClosure {
+				touches = true
+			}
+			if _, isFn := x.Call.Value.(*ssa.Function); !isFn && !x.Call.IsInvoke() {
+				if _, isBuiltin := x.Call.Value.(*ssa.Builtin); !isBuiltin {
+					touches = true // a function value: it may have captured the object
+				}
+			}
+			if touches {
+				return v
+			}
+		case *ssa.Defer, *ssa.Go:
 			return v
 		}
 	}
